@@ -145,7 +145,13 @@ def generate(rng, prop, tier):
             if rng.chance(0.4):
                 ops.append({'op': 'items'})
         clients.append({'role': role, 'ops': ops})
+    history = 0
+    if label == 'sql-file' and rng.chance(0.15):
+        # a long-lived table whose row count is about to pass a round number while the clients run
+        pre.append({'op': 'pre', 'k': 'keyH', 'v': 'init-h'})
+        history = rng.choice([1000, 1000, 512, 2000]) - len(pre) - rng.randint(1, 3)
     return {'engine': 'racesim', 'prop': prop, 'backend': B.config(label, B.odd_name(rng, label, 'r0')), 'ops': pre,
+            'history': history,
             'clients': clients, 'sseed': rng.below(1 << 30), 'kseed': rng.below(1 << 30),
             'sticky': rng.choice([0.2, 0.5, 0.8]), 'order': rng.choice(['sorted', 'permute'])}
 
@@ -668,6 +674,8 @@ def execute(case, prop, ctx):
             a = B.make(cfg, root, cached=False)
             if case['ops']:
                 a.update(dict((p['k'], p['v']) for p in case['ops']))
+            for _ in range(case.get('history') or 0):
+                a['keyH'] = 'init-h'          # history rows: the same value stored again and again
         return {'ok': True}
     out = _in_child(build)
     if 'fail' in out:
@@ -732,6 +740,10 @@ def simplify(case):
     if case.get('order') != 'sorted':
         c = _copy.deepcopy(case)
         c['order'] = 'sorted'
+        yield c
+    if case.get('history'):
+        c = _copy.deepcopy(case)
+        c['history'] = 0
         yield c
     for s in (1, 2, 3, 5, 8):
         if case['sseed'] != s:
